@@ -20,20 +20,20 @@ use crate::common::models::{Dens, Target};
 use crate::common::refmodel::{det, esh_reference, leapfrog_x, Dense};
 use crate::common::spy::{SpyMath, SpyRc};
 
-type M = SpyMath<Dens>;
+pub(crate) type M = SpyMath<Dens>;
 
-struct NoCollector;
+pub(crate) struct NoCollector;
 impl<MM: Math, P: Point<MM>> nv::Collector<MM, P> for NoCollector {}
 
 #[derive(Clone, Debug)]
-enum Trafo {
+pub(crate) enum Trafo {
     Diag { stds: Vec<f64>, mean: Vec<f64> },
     LowRank { stds: Vec<f64>, mean: Vec<f64>, vals: Vec<f64>, vecs: Vec<Vec<f64>>, mu_inner: Vec<f64> },
 }
 
 impl Trafo {
     /// dense F and mu with x = F y + mu
-    fn dense(&self) -> (Dense, Vec<f64>) {
+    pub(crate) fn dense(&self) -> (Dense, Vec<f64>) {
         match self {
             Trafo::Diag { stds, mean } => (Dense::diag(stds), mean.clone()),
             Trafo::LowRank { stds, mean, vals, vecs, mu_inner } => {
@@ -54,7 +54,7 @@ impl Trafo {
             }
         }
     }
-    fn name(&self) -> String {
+    pub(crate) fn name(&self) -> String {
         match self {
             Trafo::Diag { stds, .. } => format!("diag(min{:e},max{:e})", stds.iter().cloned().fold(f64::INFINITY, f64::min), stds.iter().cloned().fold(0.0, f64::max)),
             Trafo::LowRank { vals, .. } => format!("lowrank(rank{})", vals.len()),
@@ -62,7 +62,7 @@ impl Trafo {
     }
 }
 
-fn orthonormal(d: usize, r: usize) -> Vec<Vec<f64>> {
+pub(crate) fn orthonormal(d: usize, r: usize) -> Vec<Vec<f64>> {
     let mut out: Vec<Vec<f64>> = vec![];
     let mut k = 0;
     while out.len() < r {
@@ -115,15 +115,15 @@ fn trafos(d: usize, tier: Tier) -> Vec<Trafo> {
     v
 }
 
-fn col(v: &[f64]) -> Col<f64> {
+pub(crate) fn col(v: &[f64]) -> Col<f64> {
     Col::from_fn(v.len(), |i| v[i])
 }
 
-struct Sys<T: Transformation<M>> {
-    math: M,
-    spy: SpyRc,
-    h: TransformedHamiltonian<M, T>,
-    rng: ChaCha8Rng,
+pub(crate) struct Sys<T: Transformation<M>> {
+    pub math: M,
+    pub spy: SpyRc,
+    pub h: TransformedHamiltonian<M, T>,
+    pub rng: ChaCha8Rng,
 }
 
 fn target_for(d: usize, t: &Trafo, which: usize) -> Target {
@@ -149,6 +149,7 @@ fn target_for(d: usize, t: &Trafo, which: usize) -> Target {
 }
 
 /// run `f` with a system whose transformation is `t`
+#[macro_export]
 macro_rules! with_sys {
     ($d:expr, $t:expr, $target:expr, $kind:expr, |$sys:ident| $body:expr) => {{
         let (mut math, spy) = SpyMath::new(Dens::new($target.clone()));
@@ -158,7 +159,7 @@ macro_rules! with_sys {
                 let mut mm = nv::diag_mass_matrix_new(&mut math, false);
                 nv::diag_mass_matrix_set(&mut mm, &mut math, &col(stds), &col(mean));
                 let h = TransformedHamiltonian::new(&mut math, mm, $kind);
-                let mut $sys = Sys { math, spy, h, rng };
+                let mut $sys = $crate::c02::Sys { math, spy, h, rng };
                 $body
             }
             Trafo::LowRank { stds, mean, vals, vecs, mu_inner } => {
@@ -167,7 +168,7 @@ macro_rules! with_sys {
                 let vm: Mat<f64> = Mat::from_fn(d, vals.len(), |i, j| vecs[j][i]);
                 mm.update(&mut math, col(stds), col(mean), col(vals), vm, col(mu_inner));
                 let h = TransformedHamiltonian::new(&mut math, mm, $kind);
-                let mut $sys = Sys { math, spy, h, rng };
+                let mut $sys = $crate::c02::Sys { math, spy, h, rng };
                 $body
             }
         }
